@@ -127,6 +127,21 @@ def object_histories(ctx, src, case):
     return compare_echo(ctx, src, echo, case, 'Lua object echo (%s)' % case['history'])
 
 
+def spaced_labels(src, rng):
+    """The same source with blanks/tabs inside the colons of its labels (`::name::` -> `:: name ::`)."""
+    rt = reflex.lex(src)
+    out = []
+    for k, t in enumerate(rt):
+        out.append(t.raw)
+        if t.kind == 'symbol' and t.raw == b'::':
+            opening = k + 2 < len(rt) and rt[k + 1].kind == 'name' and rt[k + 2].raw == b'::'
+            if opening:
+                out.append(rng.choice((b' ', b'  ', b'\t', b'')))
+        elif t.kind == 'name' and k >= 1 and rt[k - 1].raw == b'::' and k + 1 < len(rt) and rt[k + 1].raw == b'::':
+            out.append(rng.choice((b' ', b'\t ', b'', b' ')))
+    return b''.join(out)
+
+
 def check_source(ctx, src, tag, cli_dir=None):
     from pico8.lua import lua
     rt, err = reflex.try_lex(src)
@@ -134,9 +149,11 @@ def check_source(ctx, src, tag, cli_dir=None):
         ctx.feature('out_of_domain:' + tag)
         return
     rtm = lexcmp.merge_labels(rt)
-    if any(t.kind == 'symbol' and t.raw == b'::' for t in rtm):
-        ctx.feature('out_of_domain:bare-double-colon')
-        return
+    # `:: name ::` (blanks inside the colons: legal Lua 5.2, lexed by picotool as loose symbols): the token-by-token tiling clause has no
+    # common token model for it, the echo clause (nothing dropped, nothing duplicated, byte for byte outside strings) applies as it stands
+    bare = any(t.kind == 'symbol' and t.raw == b'::' for t in rtm)
+    if bare:
+        ctx.feature('sources_with_spaced_labels')
     nsig = sum(1 for t in rt if t.sig)
     ctx.case(src, nontrivial=nsig >= 2)
     ctx.feature('src:' + tag)
@@ -177,15 +194,17 @@ def check_source(ctx, src, tag, cli_dir=None):
         return
     # coverage clause
     ctx.monitor('coverage_clause_checked')
-    if len(lx) != len(rtm):
+    if not bare and len(lx) != len(rtm):
         ctx.violation('token list has %d tokens, the source has %d' % (len(lx), len(rtm)), case)
         return
-    for a, b in zip(rtm, lx):
+    for a, b in zip(rtm, lx) if not bare else ():
         if (a.line, a.col) != (b._lineno, b._charno):
             ctx.violation('token %r reported at line %s col %s, is at line %d col %d: the token list does not tile the source' % (
                 a.raw[:30], b._lineno, b._charno, a.line, a.col), case)
             return
     if not compare_echo(ctx, src, echo, case):
+        return
+    if bare:
         return
     if tag in ('program', 'head') or (tag == 'string' and (b'\n' in src.rstrip(b'\n') or b'\r' in src)):
         # (string-enumerator sources that span lines - backslash-newline inside quotes, long brackets over lines - also go through the
@@ -294,6 +313,9 @@ def _run_shard(spec, ctx):
         # as markers (EF BB BF, FE FF, FF FE): in P8SCII they are ordinary glyph characters
         heads = [bytes([b]) for b in range(128, 256)] + [b'\xef\xbb\xbf', b'\xef\xbb\xbfx', b'\xfe\xff', b'\xff\xfe', b'\xef\xbb', b'\xbb\xbf',
                                                          b'\xef\xbb\xbf\xef\xbb\xbf', b'_', b'x']
+        for lab in (b':: top ::\nx=1\ngoto top\n', b'::  a::x=1 goto a', b'do\n\t::\tagain ::\n  f()\n  goto again\nend\n', b'::a ::', b'::\x8e\x8e ::\n',
+                    b'if (x) goto done\n:: done  ::\n'):
+            check_source(ctx, lab, 'head')
         for h in heads:
             for tail in (b'=1\n', b'()', b'.x=\'s\'\n-- c\n', b'+=2\r\ny=' + h + b'\r\n'):
                 check_source(ctx, h + tail, 'head')
@@ -344,6 +366,8 @@ def _run_shard(spec, ctx):
                 if f.startswith('str:'):
                     ctx.feature(f)
             check_source(ctx, src, 'program', cli_dir if (cli_dir and i % 3 == 0) else None)
+            if 'StatLabel' in p.feats:
+                check_source(ctx, spaced_labels(src, rng), 'program')
             if i == 0:
                 ctx.sample({'program_source': src[:200]})
     finally:
@@ -382,4 +406,7 @@ def gates(m, tier):
         missed.append('build from a .lua file: %d (with a return statement: %d)' % (f.get('build_from_lua_file', 0), f.get('build_from_lua_file_with_return', 0)))
     if mon.get('cli_copies_compared', 0) < 20:
         missed.append('CLI copies compared: %d' % mon.get('cli_copies_compared', 0))
+    if f.get('sources_with_spaced_labels', 0) < 100 or f.get('str:z-escape', 0) < 40 or f.get('str:z-escape-over-line-break', 0) < 10:
+        missed.append('sources with `:: name ::` labels: %d; literals with \\z: %d (over a line break: %d)' % (
+            f.get('sources_with_spaced_labels', 0), f.get('str:z-escape', 0), f.get('str:z-escape-over-line-break', 0)))
     return missed
